@@ -1,2 +1,3 @@
 pub mod c17;
 pub mod c13;
+pub mod faults;
